@@ -8,7 +8,7 @@ RULE = ('integers: exhaustive symmetric range (quick +-2^16, thorough +-2^20) + 
         '+-2 of 32^k/2 for k<=80 and of +-2^k for k<=400 + Hypothesis unbounded integers, integer lists, mappings structures '
         '(>=1 line, segments of 1/4/5 and other lengths) and canonical VLQ strings built from the grammar; every line count and every list length from 1 to 4200 (thorough: 20000) with short lines, enumerated; '
         'oracles: decode(encode(x))==x at value/list/mappings level, encode(decode(s))==s for canonical s, '
-        'and both directions against an independent reference codec (R4); a third of the cases run right after a call that failed part way (invalid element after valid ones, producer raising midway, malformed string). '
+        'and both directions against an independent reference codec (R4); a third of the cases run right after a call that failed part way (invalid element after valid ones, producer raising midway, malformed string); every decoded structure is modified by the caller afterwards (segments appended to each line, lines added) and decoded again, so that all later cases of the process run after such modifications; every list is also supplied as tuple / iterator / generator and every mappings structure as nested generators (the right string, or a TypeError from an encoder that insists on sequences). '
         'non-trivial = a case containing a value with |v|>=16 (multi-digit) or v<0; distinct by value/structure')
 ASSUMPTIONS = ['R4 reference codec (harness/ref_vlq.py) is validated against worked examples at start']
 
@@ -72,12 +72,59 @@ def check_list(acc, vlq, ints, opens):
             return
         if list(ref_vlq.decode_all(s)) != list(ints):
             acc.fail('c10.reference_decodes_differently', case, {'encoded': s}, opens)
+            return
     except Exception as e:
         acc.fail('c10.exception', case, {'bucket': type(e).__name__, 'error': repr(e)}, opens)
+        return
+    # the same values supplied in another kind (the encoder takes any iterable today): the right string, or a
+    # TypeError from an encoder that insists on a sequence - never a string that stands for other values
+    for kind, mk in SUPPLY:
+        try:
+            s2 = vlq.encode_vlqs(mk(ints))
+        except TypeError:
+            acc.label('supply_%s_refused' % kind)
+            continue
+        except Exception as e:
+            acc.fail('c10.exception', dict(case, supplied_as=kind), {'bucket': type(e).__name__, 'error': repr(e)}, opens)
+            return
+        if s2 != s:
+            acc.fail('c10.encode_depends_on_container', dict(case, supplied_as=kind), {'calmjs': s2, 'expected': s}, opens)
+            return
+
+
+def _gen(xs):
+    for x in xs:
+        yield x
+
+
+SUPPLY = [('tuple', tuple), ('iter', iter), ('generator', _gen), ('reversed_twice', lambda xs: reversed(list(reversed(xs))))]
+POLLUTED = [False]
+
+
+def _mutate(back):
+    """what a caller may do with a structure it was handed: it is the caller's"""
+    POLLUTED[0] = True
+    try:
+        for line in back:
+            line.append((4, 0, 0, 4))
+        back.append([(9,)])
+        back.insert(0, [])
+    except (AttributeError, TypeError):
+        pass
+
+
+def pollute(vlq):
+    for s in (';;', 'AAAA;;A', '', 'A', ';'):
+        try:
+            _mutate(vlq.decode_mappings(s))
+        except Exception:
+            pass
 
 
 def check_mappings(acc, vlq, m, opens):
     case = {'kind': 'mappings', 'value': [[[str(i) for i in seg] for seg in line] for line in m]}
+    if POLLUTED[0]:
+        case['after_mutated_result'] = True
     try:
         s = vlq.encode_mappings(m)
         ref = ';'.join(','.join(''.join(ref_vlq.encode(i) for i in seg) for seg in line) for line in m)
@@ -91,6 +138,25 @@ def check_mappings(acc, vlq, m, opens):
             return
         if vlq.encode_mappings(back) != s:
             acc.fail('c10.reencode_mappings', case, {'encoded': s}, opens)
+            return
+        # lines and segments supplied lazily (soft oracle as in check_list)
+        try:
+            s3 = vlq.encode_mappings(_gen([_gen([_gen(seg) for seg in line]) for line in m]))
+        except TypeError:
+            acc.label('supply_lazy_mappings_refused')
+        else:
+            if s3 != s:
+                acc.fail('c10.encode_depends_on_container', dict(case, supplied_as='generators'),
+                         {'calmjs': s3, 'expected': s}, opens)
+                return
+        # a second decode is a structure of its own, whatever the caller did to the first
+        _mutate(back)
+        again = vlq.decode_mappings(s)
+        if [[tuple(seg) for seg in line] for line in again] != [[tuple(seg) for seg in line] for line in m]:
+            acc.fail('c10.decoded_structures_share_state', dict(case, after_mutated_result=True),
+                     {'encoded': s, 'decoded_again': repr(again)[:300]}, opens)
+            return
+        _mutate(again)
     except Exception as e:
         acc.fail('c10.exception', case, {'bucket': type(e).__name__, 'error': repr(e)}, opens)
 
@@ -147,6 +213,8 @@ def inject(vlq, fault):
 def replay(case, acc):
     from calmjs.parse import vlq
     inject(vlq, case.get('after_failed_call'))
+    if case.get('after_mutated_result'):
+        pollute(vlq)
     k = case['kind']
     if k == 'int':
         check_int(acc, vlq, int(case['value']), ())
